@@ -443,7 +443,7 @@ def generate(prop: str, seed: int, tier: str = "quick", fault_free: bool = False
                 and "backend" not in ops[-1]:
             # the executor behaves like a real back end: it runs the library's own helpers
             # (documented not to modify what they are given) on the query it received
-            ops[-1]["backend"] = f.random() < 0.3
+            ops[-1]["backend"] = f.choice([False, False, False, False, True, "passes", "passes"])
         if ops and "caller_edit" in faults and ops[-1]["op"] in ("md", "qmd", "term") \
                 and "edit_after" not in ops[-1]:
             # the caller keeps the dict / list it passed and changes it afterwards
@@ -856,6 +856,17 @@ class Forest:
                 extract_metadata(remove_empty_metadata(a))
             except Exception:  # a block that cannot be evaluated: the back end's problem
                 self.stat("backend_helper_raised")
+            if call["backend"] == "passes":
+                # ... and, like the real back ends, the library's transformation passes (which
+                # are ast.NodeTransformers: they rewrite the nodes they are given)
+                from func_adl.ast import aggregate_node_transformer
+                from func_adl.ast import change_extension_functions_to_calls as to_calls
+                from func_adl.ast.function_simplifier import simplify_chained_calls
+
+                try:
+                    simplify_chained_calls().visit(aggregate_node_transformer().visit(to_calls(a)))
+                except Exception:
+                    self.stat("backend_helper_raised")
         if call.get("interrupt") and not call.get("interrupt_sent"):
             # fault: the thread that is blocked in value() right now is interrupted (what SIGINT
             # does to a waiting main thread); this executor stays busy until the simulator lets
@@ -1628,7 +1639,7 @@ class Forest:
 
     def arm_backend(self, op, call):
         if op.get("backend"):
-            call["backend"] = True
+            call["backend"] = op["backend"]
 
     def arm_interrupt(self, op, call):
         if op.get("interrupt") and self.world.mt is None:
